@@ -45,7 +45,8 @@ class PersistentProcessWorker(PersistentWorker, ProcessWorker):
             return True
         self.close()
         self._join(timeout)
-        alive = self._child.is_alive()
+        with self._poll_lock: # see ProcessWorker._start
+            alive = self._child.is_alive()
         if not alive:
             self._dead = True
         return not alive
